@@ -302,8 +302,24 @@ def _every_cycle_passes(body, lp, must):
     return True
 
 
+_VIEW_CALLS = ("std::ops::Deref::deref", "std::string::String::as_str", "std::convert::AsRef::as_ref", "std::borrow::Borrow::borrow")
+
+
+def _through_views(body, op):
+    """the operand a `&str` view was taken of: `value.as_str()` / `&*value` / `value.as_ref()` -> `&value`
+    (a helper taking `&str` is handed such a view of the caller's String)"""
+    for _ in range(4):
+        ch = body.chase(op)
+        if ch[0] == "call" and "fn" in ch[2] and Callee(ch[2]["fn"]).decl_path in _VIEW_CALLS and ch[2].get("args"):
+            op = ch[2]["args"][0]
+            continue
+        break
+    return op
+
+
 def _len_subject_is_stored(body, arg_op):
     """arg_op is `&value` passed to String::len; is `value` later moved into a tuple that is pushed?"""
+    arg_op = _through_views(body, arg_op)
     ch = body.chase(arg_op)
     # chase follows refs: ends at the place of the String local
     if ch[0] != "place" and ch[0] != "call":
@@ -368,6 +384,7 @@ def _attrs_loop_element(body, header):
 def _len_subject_is_scope_attr(body, arg_op):
     """arg_op is `&value` where value is an attribute value of the element L being iterated (`for (k, v) in &L.attrs`)
     and L is afterwards handed to push_element (its attributes become the variables of the new scope)"""
+    arg_op = _through_views(body, arg_op)
     o = R.origin(body, arg_op, carriers={})
     # the value is a component of the Some payload of Iterator::next
     pl = op_place(arg_op)
